@@ -333,6 +333,51 @@ func missingSibling(isRel, commit bool, kind, nsib, pos, npar int, ignoreMissing
 	return in
 }
 
+// repeatedVersion: a way / relation whose children changed after the parent, where the datasource
+// lists one version of one child TWICE with identical content (histories merged from overlapping
+// extracts) — dup copies of version dupV of child 0 — next to nother children with one later
+// version each.  The two equal updates are adjacent after the sort; every run must give the same list.
+func repeatedVersion(isRel, commit bool, nother, dupV, copies int, asChildren bool) *annot.Input {
+	regime, base := "commit", osm.CommitInfoStart.Add(800*24*time.Hour)
+	if !commit {
+		regime, base = "old", osm.CommitInfoStart.Add(-1200*24*time.Hour)
+	}
+	in := &annot.Input{IsRel: isRel, Threshold: 30 * time.Minute, Regime: regime, AsChildren: asChildren}
+	mk := func(h int) (time.Time, *time.Time) {
+		t := base.Add(time.Duration(h) * time.Hour)
+		if commit {
+			c := t
+			return t, &c
+		}
+		return t, nil
+	}
+	var refs []annot.Ref
+	for g := 0; g <= nother; g++ {
+		fid := osm.NodeID(20 + g).FeatureID()
+		h := annot.Hist{FID: fid}
+		nv := 2
+		if g == 0 {
+			nv = 3
+		}
+		for v := 0; v < nv; v++ {
+			ts, com := mk(20*v + g)
+			hv := annot.Hver{Version: v + 1, Changeset: int64(200 + 10*g + v), Timestamp: ts, Committed: com, Lat: float64(g), Lon: float64(v), Visible: true}
+			h.Versions = append(h.Versions, hv)
+			if g == 0 && v+1 == dupV {
+				for c := 1; c < copies; c++ {
+					h.Versions = append(h.Versions, hv)
+				}
+			}
+		}
+		in.Hists = append(in.Hists, h)
+		refs = append(refs, annot.Ref{FID: fid})
+	}
+	pt, pc := mk(10)
+	in.Parents = []annot.Parent{{Changeset: 50, Visible: true, Timestamp: pt, Committed: pc, Refs: refs}}
+	in.ComputeReverse()
+	return in
+}
+
 // bulkCase: one parent version with nch children of nver later versions each (nch*nver updates):
 // size thresholds.  The result is not shipped to Coq; observed are the number of updates, whether
 // the list is ordered, and whether nruns runs are identical (SHA-256 of the serialised result).
@@ -688,7 +733,7 @@ func main() {
 	a := wire.ParseArgs()
 	rng := wire.Rng(a.Seed)
 	w := wire.NewWriter("C12", a.Seed, a.Tier)
-	w.Rule = "ANN: an edit history annotated 8 (quick) / 24 (thorough) times on deep copies through annotate.Ways / annotate.Relations; classes: bulk (one parent version with children x later versions updates around size thresholds 2048 ... 32768/65536; count, order and run-to-run identity observed, the count checked against the specification in Coq), two_faults (a child without visible version and a child without history in the same parent version, IgnoreInconsistency only), missing_sibling (a child never listed / not found / with an empty history next to 2-6 siblings that each produce updates, under all four combinations of the ignore options, ways and relations, 16/48 runs), big (31/32/33/64/72 parent versions with interleaved child edits), stress (one multipolygon relation version with 3-150 outer ring ways annotated 4-40 times in a child process with GOMAXPROCS=8 and a datasource that answers every lookup after 2 ms; all runs must end and give the same bytes, orientation included), option_sequence (an input with default options annotated before and after ONE call that passes every option), clock (a version stamped a moment ahead of the wall clock, half of the runs before and half after that instant; versions dated 2100), sequence (a small input annotated before and after an unrelated call with >= 64 parent versions in the same process), big, reannotate (full annotation, then filtered re-annotation of the same already annotated objects with ChildFilter; the model gets the second call's input), corpus (minimised past failures), ties (13-40 updates per parent, versions of one child in the same second, children repeated, versions stamped a few seconds before their predecessor), random histories (all regimes, errors, options). SORT: osm.Updates.SortByIndex on 0-40 updates with equal (index, timestamp) groups. Equal instants are represented with different *time.Location values. Non-trivial = at least one update produced (ANN) or >= 2 updates (SORT); distinct = distinct token streams."
+	w.Rule = "ANN: an edit history annotated 8 (quick) / 24 (thorough) times on deep copies through annotate.Ways / annotate.Relations; classes: bulk (one parent version with children x later versions updates around size thresholds 2048 ... 32768/65536; count, order and run-to-run identity observed, the count checked against the specification in Coq), two_faults (a child without visible version and a child without history in the same parent version, IgnoreInconsistency only), repeated_version (the datasource lists one version of a child two or three times with identical content, next to 0-14 other children with one update each, ways and relations, both regimes), missing_sibling (a child never listed / not found / with an empty history next to 2-6 siblings that each produce updates, under all four combinations of the ignore options, ways and relations, 16/48 runs), big (31/32/33/64/72 parent versions with interleaved child edits), stress (one multipolygon relation version with 3-150 outer ring ways annotated 4-40 times in a child process with GOMAXPROCS=8 and a datasource that answers every lookup after 2 ms; all runs must end and give the same bytes, orientation included), option_sequence (an input with default options annotated before and after ONE call that passes every option), clock (a version stamped a moment ahead of the wall clock, half of the runs before and half after that instant; versions dated 2100), sequence (a small input annotated before and after an unrelated call with >= 64 parent versions in the same process), big, reannotate (full annotation, then filtered re-annotation of the same already annotated objects with ChildFilter; the model gets the second call's input), corpus (minimised past failures), ties (13-40 updates per parent, versions of one child in the same second, children repeated, versions stamped a few seconds before their predecessor), random histories (all regimes, errors, options). SORT: osm.Updates.SortByIndex on 0-40 updates with equal (index, timestamp) groups. Equal instants are represented with different *time.Location values. Non-trivial = at least one update produced (ANN) or >= 2 updates (SORT); distinct = distinct token streams."
 	nruns, nties, nrand, nsort, nreann := 8, 70, 100, 120, 50
 	if a.Tier == "thorough" {
 		nruns, nties, nrand, nsort, nreann = 24, 1200, 2500, 2500, 1200
@@ -730,6 +775,20 @@ func main() {
 					nsib := 2 + (k*3)%5
 					in := missingSibling(isRel, k%3 != 0, kind, nsib, k%(nsib+1), 1+k%2, combo&1 != 0, combo&2 != 0, k%4 == 3)
 					c, _ := annCase(w, in, 2*nruns, "missing_sibling")
+					w.Add(c)
+					k++
+				}
+			}
+		}
+	}
+	// one version of a child listed twice (or three times) by the datasource, next to other updates
+	{
+		k := 0
+		for _, isRel := range []bool{false, true} {
+			for _, commit := range []bool{true, false} {
+				for _, nother := range []int{0, 1, 2, 5, 14} {
+					in := repeatedVersion(isRel, commit, nother, 1+k%3, 2+k%2, k%5 == 4)
+					c, _ := annCase(w, in, 2*nruns, "repeated_version")
 					w.Add(c)
 					k++
 				}
